@@ -5,17 +5,30 @@ valid pre-filled (start,len) state, every source, every interleaving of next / n
 partial drains).  Tie: correspondence between the model's executable definitions
 (Signal/BufferedRun.v, evaluated by coqc) and dasp_signal's `source.buffered(ring_buffer)`, built in BOTH
 cargo profiles (dev and --release), driven
-over real `Bounded::from_raw_parts(start,len,data)` buffers with an instrumented from_iter source."""
+over real `Bounded::from_raw_parts(start,len,data)` buffers with an instrumented from_iter source.
+Tie 2 (translator, lib/siggen_util.py): on every run translate/ring2coq.py regenerates coq/gen/RingGen.v from
+dasp_ring_buffer/src/lib.rs and translate/sig2coq.py regenerates coq/gen/BufferedGen.v from dasp_signal/src/lib.rs
+(Signal::buffered, Buffered::next / next_frames / is_exhausted / into_parts, BufferedFrames::next; ring-buffer calls are
+the generated ring methods, the source signal is abstract); Signal/BufferedGenEquiv.v proves every generated definition
+equal to the hand model's on all inputs (c14_gen_agrees), so the refinement theorems are about the regenerated model.
+When the translator rejects the source or a link of the chain no longer compiles (DESIGN 5.1/5.3) the first broken link
+is named and the correspondence is the search for a failing input: hand model vs crate, then the regenerated model
+(Signal/BufferedGenRun.v) vs crate and vs hand model; a failing input gives VIOLATION with a replay file, none gives a
+VIOLATION ending no-failing-input-found that names the lemma / the translator error.
+TESTING ONLY: DASP_SIGNAL_RS / DASP_RING_RS / DASP_SIGNAL_HARNESS=scratch, see lib/siggen_util.py."""
 import json, os, itertools, hashlib
 import framework as F
+import siggen_util as G
 
 PROP = "C14"
 META = dict(
-    technique="Coq refinement proof (Buffered model over the C06 Bounded model -> ideal prefetcher) + coqc-evaluated model vs crate correspondence",
-    text="Machine-checked (Coq 8.16.1): a model of Buffered::next / next_frames / BufferedFrames / is_exhausted written after the source over the Bounded ring-buffer model (reusing the C06 push/pop/drain refinement lemmas) and of signal::from_iter with its one-frame look-ahead refines an ideal prefetcher for every capacity >= 1, every valid pre-filled (start,len) ring state, every source and every interleaving of next / next_frames (partially or fully drained): outputs ++ still-buffered ++ still-in-source = prefill ++ source ++ equilibrium padding; the source is pulled in blocks of exactly the capacity, only by an operation that finds the buffer empty; is_exhausted iff buffer empty and source exhausted; a run stopped at the first exhausted state has produced prefill ++ source ++ EQ^j with j < capacity; the loop of next exits within two iterations, no panic, no UB. The model is tied to the crate by running it inside coqc on the same scripts as the real crate (all short scripts from every raw state of capacities 1..5 and source lengths 0..13, random longer scripts) and comparing frames, both pull counters after every operation, size_hint, is_exhausted and the final into_parts() content exactly.",
-    note="Trusted: Coq kernel; the hand-written model (the unbounded `loop` of next as a fuel-bounded loop proved to exit within 2 iterations; Rust slices as lists, usize as nat; frames as abstract values with a distinguished equilibrium) validated only through the correspondence; harness + python generators. Axioms: none.",
+    technique="Coq refinement proof (Buffered model over the C06 Bounded model -> ideal prefetcher) + model regenerated from the source by a translator (on top of the regenerated ring buffer) and proved equal to the hand model + coqc-evaluated model vs crate correspondence",
+    text="Machine-checked (Coq 8.16.1): a model of Buffered::next / next_frames / BufferedFrames / is_exhausted written after the source over the Bounded ring-buffer model (reusing the C06 push/pop/drain refinement lemmas) and of signal::from_iter with its one-frame look-ahead refines an ideal prefetcher for every capacity >= 1, every valid pre-filled (start,len) ring state, every source and every interleaving of next / next_frames (partially or fully drained): outputs ++ still-buffered ++ still-in-source = prefill ++ source ++ equilibrium padding; the source is pulled in blocks of exactly the capacity, only by an operation that finds the buffer empty; is_exhausted iff buffer empty and source exhausted; a run stopped at the first exhausted state has produced prefill ++ source ++ EQ^j with j < capacity; the loop of next exits within two iterations, no panic, no UB. The model is tied to the crate by running it inside coqc on the same scripts as the real crate (all short scripts from every raw state of capacities 1..5 and source lengths 0..13, random longer scripts) and comparing frames, both pull counters after every operation, size_hint, is_exhausted and the final into_parts() content exactly. Second tie: translate/sig2coq.py, a strict translator for the Rust subset the adaptor's methods use, regenerates coq/gen/BufferedGen.v from dasp_signal/src/lib.rs on every run (Signal::buffered, Buffered::next / next_frames / is_exhausted / into_parts, BufferedFrames::next; ring-buffer calls go to the ring methods regenerated from dasp_ring_buffer/src/lib.rs, the source signal is abstract; anything outside its grammar, a new / missing / overridden method or impl, another item touching the adaptor's types is an error) and Coq proves each generated definition equal to the hand model's on all inputs (c14_gen_agrees), so the refinement theorems are about the regenerated model (c14_gen_history); a broken link of the chain is named and the correspondence becomes the search for a failing input.",
+    note="Trusted: Coq kernel; translate/sig2coq.py + translate/ring2coq.py and the vocabularies Signal/SigGenPrim.v, Ring/RingPrim.v (the &mut borrow BufferedFrames holds as state threading, the source signal as an abstract total state machine, `loop` as a fuel-bounded Fixpoint), the caller-side glue Signal/BufferedGenGlue.v; the hand-written model (the unbounded `loop` of next as a fuel-bounded loop proved to exit within 2 iterations; Rust slices as lists, usize as nat; frames as abstract values with a distinguished equilibrium) validated only through the correspondence; harness + python generators. Axioms: none.",
     design="6/C14")
 HEADER = "From Dasp Require Import Signal.BufferedRun."
+GEN_HEADER = "From Dasp Require Import Signal.BufferedRun Signal.BufferedGenRun."
+GEN_SAMPLE = 6000      # cases kept for the search on the regenerated model when the translator tie is broken
 CHECK = "check"
 RUN_VO = "theories/Signal/BufferedRun.vo"
 
@@ -64,9 +77,53 @@ def tail(cap, ln, srclen, one_by_one=False):
     return t
 
 
+# Capacities with every residue structure an index shortcut of the ring buffer could depend on (1, 2, powers of
+# two and their neighbours, even non-powers of two, odd composites, primes), next to the small exhaustive range
+# (S-C12 / round 3: `& (cap - 1)` for every even capacity is wrong for 6, 10, 12, ...).
+CAPSET = (1, 2, 3, 4, 5, 6, 7, 8, 9, 10, 12, 15, 16, 17, 24, 31, 32, 33, 48, 63, 64, 65, 96, 100, 127, 128, 129,
+          255, 256, 257)
+
+
+def corners(cap, top):
+    """every value 0..top for the small capacities, the corner values for the others"""
+    if cap <= 10:
+        return list(range(top + 1))
+    return sorted(v for v in {0, 1, 2, 3, cap // 2, cap - 2, cap - 1, cap} if v <= top)
+
+
+def capset_cases(k):
+    """deterministic: every capacity of CAPSET x prefill states (start, len) at every value (capacities <= 10) or at
+    the corner values (above: every second pair of the corner grid up to 65, every third above, rotated so that every
+    corner start and every corner len occurs with several partners); the source holds cap + 3 frames, so the prefill
+    is drained and the ring refilled twice (the second refill padded with equilibrium): the ring's indices go round the
+    storage at least twice from a refill start index (start + len) mod cap that takes the corner values.  Four
+    scripts, rotated."""
+    for cap in CAPSET:
+        data = [10 * (i + 1) for i in range(cap)]
+        src = [101 + i for i in range(cap + 3)]
+        scripts = (
+            [["next"], ["frames", cap // 2], ["next"], ["all"], ["exh"], ["next"], ["frames", cap - 1], ["next"], ["next"]],
+            [["frames", 1], ["manual", cap + 2], ["hint"], ["next"], ["next"], ["frames", cap], ["exh"], ["next"]],
+            [["hint"], ["all"], ["next"], ["next"], ["next"], ["frames", 2], ["hint"], ["all"], ["frames", cap + 1]],
+            [["next"]] * 3 + [["exh"], ["all"], ["all"], ["next"], ["frames", cap - 2 if cap > 2 else 1], ["hint"]],
+        )
+        thin = 1 if cap <= 10 else (2 if cap <= 65 else 3)
+        for i, start in enumerate(corners(cap, cap - 1)):
+            for j, ln in enumerate(corners(cap, cap)):
+                if (i + j + cap) % thin != 0:
+                    continue
+                yield build(dict(store=k % 4, ftype=(k // 4) % 2, start=start, len=ln, data=data, src=src,
+                                 ops=[list(o) for o in scripts[(k // 3) % 4]] + (tail(cap, ln, len(src), k % 5 == 0) if cap <= 10 else
+                                                                                 [["exh"], ["all"], ["exh"], ["all"], ["exh"], ["next"], ["exh"]]),
+                                 group="capset"))
+                k += 1
+
+
 def gen_cases(rng, tier):
     """generator (the thorough tier is processed in chunks to bound memory)"""
     k = 0
+    # 0. every capacity of CAPSET, prefill states at the corner values, two refills (see capset_cases)
+    yield from capset_cases(0)
     # 1. every short script from every raw (start,len) state of capacities 1..5
     for cap in range(1, 6):
         data = [10 * (i + 1) for i in range(cap)]
@@ -101,7 +158,7 @@ def gen_cases(rng, tier):
     n_rand = 2000 if tier == "quick" else 40000
     for j in range(n_rand):
         r = rng.fork(f"script{j}")
-        cap = r.choice([1, 1, 2, 2, 3, 3, 4, 4, 5, 5, 6, 7, 8, 11, 16])
+        cap = r.choice([1, 1, 2, 2, 3, 3, 4, 4, 5, 5, 6, 7, 8, 11, 16, 9, 10, 12])
         start = r.below(cap)
         ln = r.choice([0, cap, r.range(0, cap), r.range(0, cap)])
         sl = r.range(0, 13) if not r.chance(1, 10) else r.range(14, 40)
@@ -174,13 +231,15 @@ CASE_KEYS = ("store", "ftype", "start", "len", "data", "src", "ops")
 
 def main(rep, tier, seed):
     rng = F.Rng(seed)
-    info = F.standard_proof_phase(rep, PROP)
-    ok, blog, binpath = F.harness_build("c14")
+    info = G.tie_start(rep, PROP, "buffered")       # regenerate RingGen.v + BufferedGen.v, self-test, proofs, audit
+    broken = info.get("broken")
+    ok, blog, binpath = G.harness_build("c14")
     if not ok:
         rep.violation("harness_build", {"kind": "harness does not build against /repo", "log": blog[-4000:]}, no_input=True)
+        tie_broken_without_input(rep, info, None)
         return finish(rep, info, 0, 0, {}, [])
     # second profile: release (no debug assertions, no overflow checks); the model is profile-independent
-    ok, blog, relpath = F.harness_build("c14", release=True)
+    ok, blog, relpath = G.harness_build("c14", release=True)
     if not ok:
         rep.violation("harness_build_release", {"kind": "harness does not build against /repo (release profile)", "log": blog[-4000:]}, no_input=True)
         return finish(rep, info, 0, 0, {}, [])
@@ -194,9 +253,15 @@ def main(rep, tier, seed):
     hist, caps, srcl, groups, stores = {}, {}, {}, {}, {}
     st = dict(n=0, refills=0, bad=0, errors=False, rel_n=0, rel_differs=0, rel_bad=0)
     nontriv, samples, bad_items = set(), [], []
+    kept = ([], [])     # (items, debug observation lines) for the search on the regenerated model
 
     def process(chunk, base):
         outl, bad, errors = F.correspond(binpath, chunk, HEADER, CHECK, "c14")
+        if broken and not errors and len(kept[0]) < GEN_SAMPLE:
+            step = max(1, len(chunk) // (GEN_SAMPLE - len(kept[0])))
+            for j in list(bad)[:50] + list(range(0, len(chunk), step)):
+                kept[0].append(chunk[j])
+                kept[1].append(outl[j])
         for name, msg in errors:
             st["errors"] = True
             rep.violation(f"correspondence_error_{base}_" + name.replace("/", "_"),
@@ -278,14 +343,28 @@ def main(rep, tier, seed):
         _, model = F.coq_eval("c14", HEADER, f"run_case ({small['coq']})")
         rep.violation(f"case{idx}_{profile}", {
             "kind": f"model/implementation disagreement in the {profile} profile: dasp_signal::Buffered does not behave as the prefetcher the proved model refines",
-            "profile": profile, "case": {k: small[k] for k in CASE_KEYS},
+            "profile": profile, "case": {k: small[k] for k in CASE_KEYS}, **({"why": broken} if broken else {}),
             "harness_line": small["line"], "implementation_observations": obs_by_profile[profile],
             "observations_by_profile": obs_by_profile, "model_observations": model[-3000:],
             "original_case_index": idx, "replay": "./check.py C14 --replay <this file>"})
+    if broken:
+        search = {"hand_model_vs_crate_failing": st["bad"] + st["rel_bad"], "cases": st["n"]}
+        found = bool(st["bad"] + st["rel_bad"])
+        if broken["stage"] not in ("translator", "generated_ring_model") and not st["errors"]:
+            def run_one(line):
+                rc, o, _ = F.run_bin(binpath, [line])
+                return o[0] if rc == 0 and len(o) == 1 else None
+            gitems = [dict(it, coq=it["coq"]) for it in kept[0]]
+            nc, nh, note = G.gen_search(rep, PROP, "buffered", GEN_HEADER, gitems, kept[1], broken, build, run_one, CASE_KEYS)
+            search.update(generated_vs_crate_failing=nc, generated_vs_hand_failing=nh, cases_on_the_generated_model=len(gitems), note=note)
+            found = found or bool(nc) or bool(nh)
+        info["search"] = search
+        if not found:
+            tie_broken_without_input(rep, info, search)
     n_rand = groups.get("random", 0)
     dist = {"ops_histogram": hist, "capacity": caps, "source_length": srcl, "group": groups, "storage_and_frame_kind": stores,
             "exhaustive_short_script_cases": st["n"] - n_rand - len(corpus), "random_scripts": n_rand,
-            "corpus_cases": len(corpus), "refills_observed": st["refills"]}
+            "corpus_cases": len(corpus), "refills_observed": st["refills"], "capset_capacities": list(CAPSET)}
     profiles = {"debug": {"evaluations": st["n"], "disagreements": st["bad"],
                           "build": "cargo dev profile (debug assertions + overflow checks on)"},
                 "release": {"evaluations": st["rel_n"], "disagreements": st["rel_bad"],
@@ -296,18 +375,29 @@ def main(rep, tier, seed):
                   st["bad"] + st["rel_bad"], profiles)
 
 
+def tie_broken_without_input(rep, info, search):
+    broken = info.get("broken")
+    if broken:
+        rep.violation("translator_tie_broken", dict(
+            kind=broken["message"] + " -- and no failing input was found"
+                 + (": the hand model still agrees with the crate on every case" if search else " (the harness could not be built)")
+                 + (", and so does the regenerated model" if search and search.get("generated_vs_crate_failing") == 0 else ""),
+            search=search, **broken), no_input=True)
+
+
 def finish(rep, info, n, nontriv, dist, samples, nbad=0, profiles=None):
     th = info.get("theorems", [])
     cov = {
         "obligations": max(1, len(th)), "discharged": len(th) if info.get("coq_ok") else 0,
-        "checker_cmd": "make -f Makefile.coq props/C14.vo (coqc 8.16.1, full .vo) + Print Assumptions audit",
+        "checker_cmd": "translate/ring2coq.py /repo/dasp_ring_buffer/src/lib.rs > coq/gen/RingGen.v; translate/sig2coq.py buffered /repo/dasp_signal/src/lib.rs > coq/gen/BufferedGen.v; make -f Makefile.coq props/C14.vo (coqc 8.16.1, full .vo) + Print Assumptions audit",
+        "translator": info.get("translator", {}), "translator_tie_broken": info.get("broken"), "search": info.get("search"),
         "trusted_base": F.TRUSTED_COMMON + [
             "axioms: none (every theorem of props/C14.v is closed under the global context)",
             "modelled, not verified: the unbounded `loop` of Buffered::next as a fuel-bounded loop (theorems: exits within 2 iterations for every fuel >= 2); Rust slices as lists, usize as nat; frames as abstract values with a distinguished equilibrium; the source is signal::from_iter over a finite fused iterator",
-            "reused: the C06 Bounded model and its refinement lemmas (Ring/BoundedProofs.v)"],
+            "reused: the C06 Bounded model and its refinement lemmas (Ring/BoundedProofs.v)"] + G.TRUSTED,
         "theorems": th, "axioms_reported": info.get("axioms", []),
         "evaluations": n, "distinct_nontrivial": nontriv,
-        "rule": "both cargo profiles (dev and --release) on: every script of depth 0 and 1 (quick: depth 1 for capacities 4,5 on 7 source lengths, depth 2 for capacities <= 3 on 4 source lengths; thorough: depth 2 everywhere, depth 3 for capacities <= 3 (capacity 3 on 6 source lengths)) over {next, frames 0..cap+1, manual cap+2, all, hint, exh} from every raw (start,len) state of capacities 1..5 and source lengths 0..13, each followed by a drain past exhaustion (one frame at a time after the empty script, whole batches after the others) with is_exhausted watched, plus random scripts (2000 quick / 40000 thorough) on capacities 1..16, 4 storage kinds x 2 frame types; non-trivial = a refill (source pull counter rises) happens while the ring's start index != 0, or a partial drain (batch yields >= 1 frame and leaves >= 1) is directly followed by next",
+        "rule": "both cargo profiles (dev and --release) on: the capset family (30 capacities 1..257 covering 1, 2, powers of two and their neighbours, even non-powers of two, odd composites and primes x prefill (start,len) at every value (capacity <= 10) or on the corner grid {0,1,2,3,cap/2,cap-2,cap-1[,cap]} (thinned above 10), source of cap + 3 frames: prefill drained and two refills, four scripts rotated), every script of depth 0 and 1 (quick: depth 1 for capacities 4,5 on 7 source lengths, depth 2 for capacities <= 3 on 4 source lengths; thorough: depth 2 everywhere, depth 3 for capacities <= 3 (capacity 3 on 6 source lengths)) over {next, frames 0..cap+1, manual cap+2, all, hint, exh} from every raw (start,len) state of capacities 1..5 and source lengths 0..13, each followed by a drain past exhaustion (one frame at a time after the empty script, whole batches after the others) with is_exhausted watched, plus random scripts (2000 quick / 40000 thorough) on capacities 1..16, 4 storage kinds x 2 frame types; non-trivial = a refill (source pull counter rises) happens while the ring's start index != 0, or a partial drain (batch yields >= 1 frame and leaves >= 1) is directly followed by next",
         "samples": samples, "input_distribution": dist, "disagreements": nbad, "profiles": profiles or {},
         "explanation": "evaluations = cases x 2 build profiles (debug and release harness binaries run on the same cases; see profiles). theorems: refinement of the model to the ideal prefetcher and its stream / pull-block / exhaustion / padding consequences for all capacities, states, sources and histories; tie: the model's executable definitions run by coqc on the same cases as the real crate, every observation (frames, both pull counters after each op, size_hint, is_exhausted, final ring content) compared exactly",
     }
@@ -318,14 +408,36 @@ def finish(rep, info, n, nontriv, dist, samples, nbad=0, profiles=None):
 
 def replay(path):
     j = json.load(open(path))
+    if "case" not in j:
+        print("this replay file names a broken lemma / translator error and has no input; re-run ./check.py C14")
+        print(json.dumps({k: j.get(k) for k in ("kind", "stage", "broken_lemma", "file", "line", "coq_message", "message")}, indent=1))
+        return 1
     it = build(j["case"])
+    if j.get("model") == "generated":
+        tinfo, terr = G.regenerate("buffered")
+        if terr:
+            print("translator:", terr)
+            return 1
+        F.coq_make(G.GROUPS["buffered"]["run"])
+        ok, blog, binpath = G.harness_build("c14")
+        rc, out, _ = F.run_bin(binpath, [it["line"]])
+        _, gmodel = F.coq_eval("c14", GEN_HEADER, f"gen_run_case ({it['coq']})")
+        _, hmodel = F.coq_eval("c14", GEN_HEADER, f"run_case ({it['coq']})")
+        print("case:", it["line"])
+        print("implementation:", out)
+        print("generated model:", gmodel)
+        print("hand model:", hmodel)
+        fn = "agree_gen" if j.get("against") == "hand" else "check_gen"
+        bad, errs = F.coq_check_cases("c14_replay", GEN_HEADER, fn, [f"({it['coq']}, {F.zlistlist(F.norm_obs_line(out[0]))})"])
+        print("AGREE" if not bad and not errs else "DISAGREE")
+        return 1 if bad or errs else 0
     F.coq_make(RUN_VO)
     _, model = F.coq_eval("c14", HEADER, f"run_case ({it['coq']})")
     print("case:", it["line"])
     print("model:", model)
     worst = 0
     for profile, rel in (("debug", False), ("release", True)):
-        ok, blog, binpath = F.harness_build("c14", release=rel)
+        ok, blog, binpath = G.harness_build("c14", release=rel)
         rc, out, _ = F.run_bin(binpath, [it["line"]])
         print(f"implementation[{profile}]:", out)
         o, bad, errs = F.correspond(binpath, [it], HEADER, CHECK, "c14_replay")
